@@ -68,15 +68,29 @@ const (
 	fOpaque
 	fSpecial
 	fVerrs
+	fParams
 	nFields
 )
 
 var fieldNames = []string{"href", "href_nofrag", "protocol", "username", "password", "host", "hostname", "port", "pathname", "search", "hash",
-	"scheme", "query", "fragment", "decodedPort", "isIPv4", "isIPv6", "opaquePath", "isSpecial", "validationErrors"}
+	"scheme", "query", "fragment", "decodedPort", "isIPv4", "isIPv6", "opaquePath", "isSpecial", "validationErrors", "searchParams"}
 
 var apiFields = []int{fHref, fProtocol, fUsername, fPassword, fHost, fHostname, fPort, fPathname, fSearch, fHash}
-var allButVerrs = []int{0, 1, 2, 3, 4, 5, 6, 7, 8, 9, 10, 11, 12, 13, 14, 15, 16, 17, 18}
-var allFields = []int{0, 1, 2, 3, 4, 5, 6, 7, 8, 9, 10, 11, 12, 13, 14, 15, 16, 17, 18, 19}
+var allButVerrs = []int{0, 1, 2, 3, 4, 5, 6, 7, 8, 9, 10, 11, 12, 13, 14, 15, 16, 17, 18, 20}
+var allFields = []int{0, 1, 2, 3, 4, 5, 6, 7, 8, 9, 10, 11, 12, 13, 14, 15, 16, 17, 18, 19, 20}
+
+// paramsObs: the parameter list if it has been created (not creating it), length-prefixed
+func paramsObs(u *url.Url) string {
+	sp := url.VerifPeekSearchParams(u)
+	if sp == nil {
+		return "-"
+	}
+	var sb strings.Builder
+	for _, x := range url.VerifSearchParamsPairs(sp) {
+		sb.WriteString(strconv.Itoa(len(x)) + ":" + x)
+	}
+	return sb.String()
+}
 
 func urlFields(u *url.Url) []string {
 	var ve []string
@@ -85,7 +99,7 @@ func urlFields(u *url.Url) []string {
 	}
 	return []string{u.Href(false), u.Href(true), u.Protocol(), u.Username(), u.Password(), u.Host(), u.Hostname(), u.Port(),
 		u.Pathname(), u.Search(), u.Hash(), u.Scheme(), u.Query(), u.Fragment(), strconv.Itoa(u.DecodedPort()),
-		b2s(u.IsIPv4()), b2s(u.IsIPv6()), b2s(u.OpaquePath()), b2s(u.IsSpecialScheme()), strings.Join(ve, ",")}
+		b2s(u.IsIPv4()), b2s(u.IsIPv6()), b2s(u.OpaquePath()), b2s(u.IsSpecialScheme()), strings.Join(ve, ","), paramsObs(u)}
 }
 
 // Obs is a decoded observation, from the model or from the implementation.
